@@ -425,16 +425,33 @@ def sort_positions(keycols, ascending=True, stable=True):
     keys = [tuple(c[i] for c in keycols) for i in range(n)]
     order = []          # positions, sorted
     res = {}            # (left position, new position) -> comparison result
-    for i in range(n):
-        j = len(order)
-        while j > 0:
-            c = _cmp_keys(keys[order[j - 1]], keys[i], asc)
-            res[(order[j - 1], i)] = c
-            if c <= 0:
-                break
-            j -= 1
-        order.insert(j, i)
-    eq_next = [res.get((order[j], order[j + 1])) == 0 for j in range(len(order) - 1)]
+    if n <= 16:
+        for i in range(n):
+            j = len(order)
+            while j > 0:
+                c = _cmp_keys(keys[order[j - 1]], keys[i], asc)
+                res[(order[j - 1], i)] = c
+                if c <= 0:
+                    break
+                j -= 1
+            order.insert(j, i)
+        eq_next = [res.get((order[j], order[j + 1])) == 0 for j in range(len(order) - 1)]
+    else:
+        # long inputs (padding families): the right neighbour first (sorted input stays linear), then binary insertion
+        # at the upper bound (stable); O(n log n) comparisons instead of O(n^2)
+        for i in range(n):
+            lo, hi = 0, len(order)
+            if hi and _cmp_keys(keys[order[hi - 1]], keys[i], asc) <= 0:
+                lo = hi
+            while lo < hi:
+                mid = (lo + hi) // 2
+                if _cmp_keys(keys[order[mid]], keys[i], asc) <= 0:
+                    lo = mid + 1
+                else:
+                    hi = mid
+            order.insert(lo, i)
+        eq_next = [_cmp_keys(keys[order[j]], keys[order[j + 1]], asc) == 0 for j in range(len(order) - 1)] \
+            if (not stable and TIE_MODE["mode"] == "adversarial" and E.active()) else [False] * max(0, len(order) - 1)
     if not stable and TIE_MODE["mode"] == "adversarial" and E.active() and any(eq_next) and not _tie_site_stable():
         out, run = [], []
         for j, p in enumerate(order):
